@@ -71,7 +71,7 @@ func (w *semverWorld) Check(c *core.Case) ([]core.Violation, bool) {
 		json.Unmarshal(c.Exp, &exp)
 		s := concrete.Str(in.S)
 		obs := semverObsStr(s, concrete.Strs(in.Refs))
-		nt := strings.HasPrefix(s, "v")
+		nt, _ := exp["valid"].(bool) // non-trivial: a version the specification calls valid
 		if d := core.Diff(exp, obs); len(d) > 0 {
 			return []core.Violation{{Sig: "str:" + d[0], What: fmt.Sprintf("semver accessors on %q: fields %v differ from the specification", s, d), Case: c, Obs: obs}}, nt
 		}
